@@ -212,7 +212,13 @@ impl BasicLexer {
         }
         if let Some(Token::Unknown(_)) = tokens.last() {
             if let Some(Token::Unknown(s)) = tokens.pop() {
-                tokens.push(Token::Unknown(s.trim_end().into()));
+                // Only blanks and tabs are white space to BASIC. Other characters Unicode
+                // calls white space (no-break space etc.) make the line a syntax error and
+                // must stay in its listing, or the listed text would mean something else.
+                let s = s.trim_end_matches(is_basic_whitespace);
+                if !s.is_empty() {
+                    tokens.push(Token::Unknown(s.into()));
+                }
             }
         }
     }
